@@ -447,3 +447,7 @@ func TestC14IndependentReaders(t *testing.T) {
 func TestC16ConcurrentReaders(t *testing.T) {
 	concurrentRounds(t, "C16", concurrentArrayReaders, "8 goroutines reading the same built arrays (typed, generic with the library's and with a configured encoder, reloaded twins) through Get and GetBytes; every answer is checked against the model")
 }
+
+func TestC19IndependentReaders(t *testing.T) {
+	concurrentRounds(t, "C19", independentReaders, independentReadersNote+"; every goroutine also renders its trie with String(), and the renderings must equal the one made alone")
+}
